@@ -78,3 +78,19 @@ package gov
 //@   assert@call(Read,0): immuheight[$target] == req.Height                                                   [C19]
 //@   assert@call(Read,1): immuheight[$target] == req.Height                                                   [C19]
 //@   assert@call(Read,2): immuheight[$target] == req.Height                                                   [C19]
+
+// ---- effect clauses (C01)
+//@ effect (*GovCtrler).doPunish$1 maprange#0: existence test with early exit: the proposal's key is appended iff some recorded voter has the target address (contract of doPunish__1)
+
+// the callback of doPunish: order-independent result of the voter search
+//@ func (ctrler *GovCtrler) doPunish__1(prop)
+//@   requires prop != nil
+//@   requires forall k :: has(prop.Voters, k) ==> prop.Voters[k] != nil
+//@   modifies cell(targetPropsKeys), elems(targetPropsKeys)
+//@   allocates []LedgerKey
+//@   ensures result == nil
+//@   ensures len(targetPropsKeys) == old(len(targetPropsKeys)) || len(targetPropsKeys) == old(len(targetPropsKeys)) + 1
+//@   ensures (len(targetPropsKeys) == old(len(targetPropsKeys)) + 1) ==> (exists k :: has(prop.Voters, k) && (content(prop.Voters[k].Addr) == content(targetAddr) || (len(prop.Voters[k].Addr) == 0 && len(targetAddr) == 0)))   [C01,C14]
+//@   ensures (len(targetPropsKeys) == old(len(targetPropsKeys))) ==> (forall k :: has(prop.Voters, k) ==> !(content(prop.Voters[k].Addr) == content(targetAddr) || (len(prop.Voters[k].Addr) == 0 && len(targetAddr) == 0)))   [C01,C14]
+//@   loop 0: invariant len(targetPropsKeys) == old(len(targetPropsKeys))
+//@   loop 0: invariant forall k :: visited(k) ==> has(prop.Voters, k) && !(content(prop.Voters[k].Addr) == content(targetAddr) || (len(prop.Voters[k].Addr) == 0 && len(targetAddr) == 0))
